@@ -492,6 +492,61 @@ def _(w):
     return wicks(imp(w, "opgen").sympy, simplify_kronecker_deltas=True)
 
 
+# linearly dependent denominator brackets: the numerator can be cancelled in more than one
+# way, which of the equivalent forms is returned must not depend on set / hash order
+TXT["dep4"] = (
+    r"\frac{\left({e_{i}} + {e_{j}} + {e_{k}} + {e_{l}} - {e_{a}} - {e_{b}} - {e_{c}} - {e_{d}}\right) {V^{ij}_{ab}} {V^{kl}_{cd}}}"  # noqa: E501
+    r"{\left({e_{i}} + {e_{j}} - {e_{a}} - {e_{b}}\right) \left({e_{k}} + {e_{l}} - {e_{c}} - {e_{d}}\right) \left({e_{i}} + {e_{k}} - {e_{a}} - {e_{c}}\right) \left({e_{j}} + {e_{l}} - {e_{b}} - {e_{d}}\right)}")  # noqa: E501
+TXT["dep4x"] = TXT["dep4"].replace("{V^{ij}_{ab}} {V^{kl}_{cd}}", "{X^{ijkl}_{abcd}}")
+TXT["dep3"] = (
+    r"\frac{\left({e_{i}} + {e_{j}} - {e_{a}} - {e_{b}}\right) {V^{ij}_{ab}} {Y^{a}_{i}} {Y^{b}_{j}}}"  # noqa: E501
+    r"{\left({e_{i}} - {e_{a}}\right) \left({e_{j}} - {e_{b}}\right) \left({e_{i}} + {e_{j}} - {e_{a}} - {e_{b}}\right)^{2}}")  # noqa: E501
+# contracted indices with a gap below them (j, b unused) next to the generic indices that
+# expand_intermediates / norm_factor bring in: renaming chains  k -> j, <generic> -> k
+TXT["gap_kc"] = r"{V^{ka}_{ic}} {t2^{c}_{k}}"
+TXT["gap_me"] = r"{V^{ma}_{ie}} {t2^{e}_{m}} + {V^{la}_{id}} {t2^{d}_{l}}"
+TXT["gap_ld"] = r"{V^{lm}_{de}} {t1^{de}_{lm}} {t2^{a}_{i}}"
+TXT["gap_kcY"] = r"{V^{ka}_{ic}} {Y^{c}_{k}}"
+TXT["gap_ldY"] = r"{V^{la}_{id}} {Y^{d}_{l}} {f^{m}_{m}}"
+
+for _k in ("dep4", "dep4x", "dep3"):
+    def _mk(k):
+        @tmpl(f"expr.cancel_orb_energy_frac({k})", "expr", "")
+        def _(w):
+            from adcgen import EriOrbenergy
+            e = imp(w, k, real=True, targets="")
+            return EriOrbenergy(e.terms[0]).cancel_orb_energy_frac()
+
+        @tmpl(f"expr.reduce_expr({k})", "expr", "", cost=2)
+        def _(w):
+            from adcgen import reduce_expr
+            return reduce_expr(imp(w, k, real=True, targets=""))
+    _mk(_k)
+
+for _k in ("gap_kc", "gap_me", "gap_ld"):
+    def _mk(k):
+        @tmpl(f"expr.expand_substitute({k})", "expr", "ia")
+        def _(w):
+            e = imp(w, k, targets="ia").expand_intermediates(fully_expand=False)
+            return e.substitute_contracted()
+
+        @tmpl(f"expr.expand_simplify({k})", "expr", "ia", cost=2)
+        def _(w):
+            from adcgen import simplify
+            return simplify(imp(w, k, real=True, targets="ia").expand_intermediates())
+    _mk(_k)
+
+for _k in ("gap_kcY", "gap_ldY"):
+    def _mk(k):
+        @tmpl(f"expr.norm_times({k})", "mp", "ia")
+        def _(w):
+            from adcgen import Expr
+            nf = w.call(w.gs("mp", False), "norm_factor", 2)
+            nf = getattr(nf, "sympy", nf)
+            return Expr(nf * imp(w, k).sympy, target_idx="ia").substitute_contracted()
+    _mk(_k)
+
+
 @tmpl("expr.expand_intermediates(itmds)", "expr", "", cost=2)
 def _(w):
     return imp(w, "itmds", targets="").expand_intermediates()
